@@ -95,6 +95,10 @@ abbrev Aggr := MType → AList Key Entry
 /-- the four `expiry-interval-<type>` settings -/
 abbrev Config := MType → Int
 
+/-- Start-up resolution of a type's interval (README: `expiry-interval-<type>` > `expiry-interval` >
+default): `cmd/gostatsd/main.go` sets the per-type default from the main setting. -/
+def resolveInterval (dflt : Int) (main perType : Option Int) : Int := perType.getD (main.getD dflt)
+
 def init : Aggr := fun _ => []
 
 /-- what a backend sees of one series in a flush -/
